@@ -30,6 +30,9 @@ def main():
         shutil.copy(os.path.join(src, 'MUT%s.diff' % a.k), os.path.join(d, 'patch.diff'))
         shutil.copy(os.path.join(src, 'MUT%s_demo.py' % a.k), os.path.join(d, 'demo.py'))
         notes = open(os.path.join(src, 'MUT%s_notes.md' % a.k)).read() if os.path.exists(os.path.join(src, 'MUT%s_notes.md' % a.k)) else ''
+        for f in os.listdir(src):      # helper modules the demonstration imports
+            if f.endswith('.py') and not f.startswith('MUT') and f[:-3] in open(os.path.join(d, 'demo.py')).read():
+                shutil.copy(os.path.join(src, f), os.path.join(d, f))
     else:
         notes = None
     mp = os.path.join(d, 'meta.json')
